@@ -3,7 +3,7 @@
 from pv import am
 
 
-def build(doc, ref_order='appearance', **dbkw):
+def build(doc, api_inline=False, **dbkw):
     from pydbml import Database
     from pydbml.classes import (Column, Enum, EnumItem, Expression, Index, Note, Project,
                                 Reference, StickyNote, Table, TableGroup)
@@ -49,7 +49,7 @@ def build(doc, ref_order='appearance', **dbkw):
         else:
             t1, t2 = tables[r.t1], tables[r.t2]
             db.add(Reference(r.kind, [t1[c] for c in r.cols1], [t2[c] for c in r.cols2], name=r.name,
-                             comment=r.comment, on_update=r.on_update, on_delete=r.on_delete, inline=False))
+                             comment=r.comment, on_update=r.on_update, on_delete=r.on_delete, inline=bool(api_inline and r.api_inline)))
     for kind, idx in order:
         if kind == 'g':
             g = doc.groups[idx]
